@@ -189,10 +189,6 @@ def inst_text(L):
             "From Run Require Import Gen_Bindings Gen_Validate Gen_Schema.\nImport ListNotations.\nOpen Scope string_scope.\n\n"
             "(* the tables of this run with the recursion left to the generated validate_ methods, as shipped *)\n"
             "Definition V_original : vtables := {| vt_mode := RecGenerated; vt_classes := vt_classes Gen_Validate.V |}.\n\n"
-            "Lemma agree_val_ok : disagree_val Gen_Validate.V Gen_Bindings.T Gen_Schema.S = [].\n"
-            "Proof. vm_compute. reflexivity. Qed.\n\n"
-            "Lemma unchecked_exact : unchecked Gen_Validate.V Gen_Bindings.T Gen_Schema.S =\n  %s.\n"
-            "Proof. vm_compute. reflexivity. Qed.\n\n"
             "Definition w_doc : obj dec := %s.\nDefinition w_cell : obj dec := %s.\n"
             "Lemma refuted_inherited : exists (doc cell : obj dec) (m : string),\n"
             "  In cell (kids_of (field doc \"iaf_cells\")) /\\\n"
@@ -212,9 +208,31 @@ def inst_text(L):
             "          (eff_parts Gen_Schema.S (o_cls dec o)) = false /\\\n"
             "  x_validate Gen_Validate.V o true = [].\n"
             "Proof. exists w_choice. split; vm_compute; reflexivity. Qed.\n\n"
+            "Lemma agree_val_ok : disagree_val Gen_Validate.V Gen_Bindings.T Gen_Schema.S = [].\n"
+            "Proof. vm_compute. reflexivity. Qed.\n\n"
+            "Lemma unchecked_exact : unchecked Gen_Validate.V Gen_Bindings.T Gen_Schema.S =\n  %s.\n"
+            "Proof. vm_compute. reflexivity. Qed.\n\n"
             "(* last: false on a tree whose validate() still leaves the recursion to the generated code *)\n"
             "Lemma recursion_walks_all_members : vt_mode Gen_Validate.V = RecAllMembers.\n"
-            "Proof. reflexivity. Qed.\n" % (unch, doc, cell, kw_obj(W_RANGE["tree"]), kw_obj(W_CHOICE["tree"])))
+            "Proof. reflexivity. Qed.\n" % (doc, cell, kw_obj(W_RANGE["tree"]), kw_obj(W_CHOICE["tree"]), unch))
+
+
+def diagnose(ck, L):
+    """what the agreement predicates say about the tables of this run, as data: used to steer the witness search to the
+    classes / members whose obligations broke (the kernel-checked statements are the lemmas of the Inst file)"""
+    text = ("From Coq Require Import String List ZArith Bool.\n"
+            "From LNML Require Import Lib.Dec Lib.Regex Model.Gds Model.Validate Model.Xsd.\n"
+            "From Run Require Import Gen_Bindings Gen_Validate Gen_Schema.\nImport ListNotations.\nOpen Scope string_scope.\n"
+            "Eval vm_compute in (unchecked Gen_Validate.V Gen_Bindings.T Gen_Schema.S).\n"
+            "Eval vm_compute in (disagree_val Gen_Validate.V Gen_Bindings.T Gen_Schema.S).\n"
+            "Eval vm_compute in (disagree_exp Gen_Bindings.T Gen_Schema.S).\n")
+    ok, res, out = ck.coq_eval("Diag_%s.v" % ck.pid, text, timeout=600)
+    if not ok or len(res) < 3:
+        return None
+    unch = set(re.findall(r'\("(\w+)",\s*"(\w+)",\s*(V\w+)\)', res[0]))
+    exp = set(expected_unchecked(L))
+    return {"unchecked_extra": sorted(unch - exp), "unchecked_missing": sorted(exp - unch),
+            "disagree_val": re.findall(r'"(\w+)"', res[1]), "disagree_exp": re.findall(r'"(\w+)"', res[2])}
 
 
 # ----------------------------------------------------------------------------- the property on the real code
@@ -247,6 +265,13 @@ def triples(L, G):
                 if hi == 1 and len(alts) >= 2:
                     out.append((c, "choice%d" % i, "choice-two", k != c,
                                 ("choice", k, [t for ts in tags for t in ts], [tags[0], tags[1]])))
+    return out
+
+
+def descendants(L, c):
+    out = []
+    for s in L.subtypes.get(c, []):
+        out += [s] + descendants(L, s)
     return out
 
 
@@ -296,8 +321,9 @@ def key_of(facet, inh, depth, via_inherited):
     return None
 
 
-def property_cases(ck, L, G, depths, per, limit):
-    """(type, member, facet) x depth: the violated component inside conforming parents"""
+def property_cases(ck, L, G, depths, per, limit, focus=()):
+    """(type, member, facet) x depth: the violated component inside conforming parents.  focus = (class, member) pairs
+    and classes named by a broken agreement obligation: all their triples are kept whatever the sampling limit"""
     rng = ck.rng
     tr = triples(L, G)
     ck.extra["schema_triples"] = len(tr)
@@ -322,7 +348,8 @@ def property_cases(ck, L, G, depths, per, limit):
         seen, keep, rest = set(), [], []
         for cs in cases:
             k = (cs["facet"], cs["depth"], cs["inherited"])
-            (keep if k not in seen else rest).append(cs)
+            hot = (cs["type"], cs["member"]) in focus or cs["type"] in focus
+            (keep if k not in seen or (hot and cs["depth"] <= 1) else rest).append(cs)
             seen.add(k)
         cases = keep + rest[:max(0, limit - len(keep))]
     return cases
@@ -423,11 +450,21 @@ def run(ck):
             ck.tally("corr:constructor-raised")
     correspondence(ck, cases, res)
     # ---- the property itself on the real code
+    focus = set()
+    if not iok:
+        dg = diagnose(ck, L)
+        ck.extra["agreement_diagnosis"] = dg
+        if dg:
+            # a member that lost its exact test, in the class that declares it and in every class that inherits it
+            for c, m, _ in dg["unchecked_extra"]:
+                for sub in [c] + descendants(L, c):
+                    focus.add((sub, m))
+            focus.update(dg["disagree_val"])
     if ck.tier == "thorough":
-        pc = property_cases(ck, L, G, depths=(0, 1, 2, 3), per=1, limit=None)
+        pc = property_cases(ck, L, G, depths=(0, 1, 2, 3), per=ck.n(1, 2), limit=None)
         ck.extra["exhaustive_over_triples_x_depths"] = True
     else:
-        pc = property_cases(ck, L, G, depths=(0, 1, 2, 3), per=1, limit=420)
+        pc = property_cases(ck, L, G, depths=(0, 1, 2, 3), per=1, limit=420, focus=focus)
     pres = []
     for i in range(0, len(pc), 1500):
         pres += ck.impl("c03_impl.py", {"order": order, "cases": pc[i:i + 1500], "want": ["rec", "nonrec", "text", "file"]},
